@@ -14,12 +14,23 @@ SCHEMA_URIS = {3: "http://json-schema.org/draft-03/schema#", 4: "http://json-sch
 @st.composite
 def cases(draw):
     d = draw(st.sampled_from(impl.DRAFTS))
-    if draw(st.booleans()):
+    k = draw(st.integers(0, 9))
+    if k < 5:
         s = draw(GS.root_schemas(d, 8))
         flavour = "well-meant"
-    else:
+    elif k < 8:
         s = draw(GS.liberal(d, 6))
         flavour = "liberal"
+    elif k == 8:
+        # anything at all offered as a schema: non-objects, booleans under drafts 3/4, ...
+        from ..gen import values as V
+        s = draw(st.one_of(V.values(6, wide=True), GS.ODD))
+        flavour = "arbitrary"
+    else:
+        # an id keyword of the wrong JSON type (the metaschema says string)
+        s = dict(draw(GS.schema_object(d, GS.schemas(d, 4))))
+        s[draw(st.sampled_from(["id", "$id"]))] = draw(st.sampled_from([5, None, True, [], {}, ["http://x/"], 1.5]))
+        flavour = "odd-id"
     via_dollar = draw(st.booleans())
     if via_dollar and isinstance(s, dict):
         s = dict(s)
@@ -68,7 +79,7 @@ def descendants(errors):
 
 class C04(Prop):
     ID = "C04"
-    QUICK = 600
+    QUICK = 900
     THOROUGH = 14000
     RULE = ("case = (draft, schema: 50% well-meant, 50% liberal and unfiltered so that check_schema fails on a share; "
             "class given explicitly or chosen through $schema (with / without trailing #); format checker none / "
@@ -151,7 +162,24 @@ class C04(Prop):
             return res
         # ---- instance relations
         xs = list(case["instances"]) + (GI.probes(s, case["probes"]) if case.get("probes") and isinstance(s, dict) else [])
+        # "for one validator": the same validator object answers is_valid for every instance of the case in turn
+        # (Python-equal values of different JSON types -- 1, True, 1.0 / 0, False -- come one after the other)
+        xs = xs + [1, True, 1.0, 0, False, 0.0, "1", [1], [True]]
+        try:
+            vlong = cls(copy.deepcopy(s), format_checker=fc)
+        except Exception:
+            vlong = None
         for x in xs:
+            if vlong is not None:
+                try:
+                    lv = vlong.is_valid(copy.deepcopy(x))
+                    le = list(vlong.iter_errors(copy.deepcopy(x)))
+                    if lv != (not le):
+                        res.fail(("is_valid-vs-iter_errors", "same-validator-object"),
+                                 "after earlier calls on the same validator: is_valid(%s)=%r but iter_errors yields %d "
+                                 "errors" % (impl.cj(x)[:100], lv, len(le)))
+                except Exception:
+                    pass
             res.evals += 1
             try:
                 errs1 = list(cls(copy.deepcopy(s), format_checker=fc).iter_errors(copy.deepcopy(x)))
